@@ -408,8 +408,8 @@ func ruleC19d(c *Ctx) {
 						case pureCalls[cn]:
 						case y.Call.IsInvoke() && (y.Call.Method.Name() == "String" || y.Call.Method.Name() == "Error") && y.Call.Signature().Params().Len() == 0:
 						default:
-							if cal := y.Call.StaticCallee(); cal != nil && p.inModule(cal) && isPureLogger(p, cal) {
-								break
+							if cal := y.Call.StaticCallee(); cal != nil && p.inModule(cal) && (isPureLogger(p, cal) || isPureFunc(p, cal, 0, map[*ssa.Function]bool{})) {
+								break // logging, or a function that only computes a value (Len(), a String() for the message)
 							}
 							bad = "call of " + shortCallee(&y.Call) + " at " + p.ipos(ins) + " is not a logging call"
 						}
@@ -471,6 +471,72 @@ func ruleC19d(c *Ctx) {
 }
 
 // isPureLogger: a module function whose body only forwards to a logger (package log helpers).
+// isPureFunc: fn only computes a value from its arguments and what they point to: no store outside its own
+// locals, no channel operation, no go/defer, no panic, and every call is of a function that is pure in the same
+// sense (len, fmt.Sprint*, strings.*, strconv.*, other pure module functions).
+func isPureFunc(p *Program, fn *ssa.Function, depth int, seen map[*ssa.Function]bool) bool {
+	if fn == nil || fn.Blocks == nil || depth > 3 {
+		return false
+	}
+	if seen[fn] {
+		return true
+	}
+	seen[fn] = true
+	local := map[ssa.Value]bool{}
+	eachInstr(fn, func(i ssa.Instruction) {
+		if a, ok := i.(*ssa.Alloc); ok {
+			local[a] = true
+		}
+	})
+	pure := true
+	eachInstr(fn, func(i ssa.Instruction) {
+		switch x := i.(type) {
+		case *ssa.Store:
+			root := x.Addr
+			for {
+				if ia, ok := root.(*ssa.IndexAddr); ok {
+					root = ia.X
+					continue
+				}
+				if fa, ok := root.(*ssa.FieldAddr); ok {
+					root = fa.X
+					continue
+				}
+				break
+			}
+			if !local[root] {
+				pure = false
+			}
+		case *ssa.MapUpdate, *ssa.Send, *ssa.Go, *ssa.Defer, *ssa.Panic, *ssa.Select:
+			pure = false
+		case *ssa.UnOp:
+			if x.Op == token.ARROW {
+				pure = false
+			}
+		case *ssa.Call:
+			if _, isB := x.Call.Value.(*ssa.Builtin); isB {
+				switch x.Call.Value.Name() {
+				case "len", "cap", "append", "copy", "min", "max":
+				default:
+					pure = false
+				}
+				return
+			}
+			cn := calleeName(&x.Call)
+			switch {
+			case strings.HasPrefix(cn, "fmt.Sprint"), strings.HasPrefix(cn, "strings."), strings.HasPrefix(cn, "strconv."):
+			case x.Call.IsInvoke() && (x.Call.Method.Name() == "String" || x.Call.Method.Name() == "Error") && x.Call.Signature().Params().Len() == 0:
+			default:
+				if cal := x.Call.StaticCallee(); cal != nil && p.inModule(cal) && isPureFunc(p, cal, depth+1, seen) {
+					return
+				}
+				pure = false
+			}
+		}
+	})
+	return pure
+}
+
 func isPureLogger(p *Program, fn *ssa.Function) bool {
 	return fn.Pkg == p.Log
 }
